@@ -293,7 +293,11 @@ def execute(scenario, chooser):
             prev = rec
             reactor.arm(chooser, max_interrupts=1, ties=True)
             before_calls = list(reactor.getDelayedCalls())
-            o = observe(lambda: spinner.run(TIMEOUT, fn))
+            if spec[0] == ("ret",) and spec[1] == "none":
+                # (run() passes further arguments on to the function, whatever they are called)
+                o = observe(lambda: spinner.run(TIMEOUT, lambda *a, **kw: fn() if (a, kw) == ((1,), {"f": 2, "d": 3}) else ("arguments", a, kw), 1, f=2, d=3))
+            else:
+                o = observe(lambda: spinner.run(TIMEOUT, fn))
             interrupt_at = None
             for e in reactor.log:
                 if e[0] == "SIGINT":
